@@ -519,6 +519,10 @@ func (e *SpecEnv) evalCall(x *ast.CallExpr) Term {
 		hn, ref := e.lockTarget(arg(0))
 		h := vc.heapGet(e.st, hn, "(Array Int Int)", nil)
 		return intTerm(sel(h.S, ref))
+	case "wf":
+		// wf(x): x is a well-formed value of its Go type (machine-integer ranges, allocated references)
+		v := e.eval(arg(0))
+		return boolTerm(vc.u.WF(v.S, v.T, e.st.alloc))
 	case "refof":
 		v := e.eval(arg(0))
 		if v.Sort == "Iface" {
@@ -713,6 +717,19 @@ func (e *SpecEnv) evalCall(x *ast.CallExpr) Term {
 		okf := "abs.jsonOK$" + sanitize(typeKey(t))
 		vc.u.declFun(okf, "("+d.Sort+") Bool")
 		return boolTerm("(" + okf + " " + d.S + ")")
+	case "sprintf":
+		// sprintf(format, args...): the same uninterpreted term the engine uses for fmt.Sprintf
+		f := e.eval(arg(0))
+		key := "abs.sprintf" + fmt.Sprint(len(x.Args)-1)
+		sorts := []string{"Str"}
+		as := []string{f.S}
+		for _, a := range x.Args[1:] {
+			v := e.eval(a)
+			sorts = append(sorts, "Iface")
+			as = append(as, vc.box(v, types.NewInterfaceType(nil, nil)).S)
+		}
+		vc.u.declFun(key, "("+strings.Join(sorts, " ")+") Str")
+		return vc.mk("("+key+" "+strings.Join(as, " ")+")", types.Typ[types.String])
 	case "setadd":
 		a := e.eval(arg(0))
 		x := e.eval(arg(1))
